@@ -44,6 +44,19 @@ impl OutCapture {
     }
 }
 
+/// fd of the result pipe inside a forked child (for progress marks written by host functions)
+pub static CHILD_PIPE_FD: std::sync::atomic::AtomicI32 = std::sync::atomic::AtomicI32::new(-1);
+
+pub fn child_mark(text: &str) {
+    let fd = CHILD_PIPE_FD.load(std::sync::atomic::Ordering::Relaxed);
+    if fd >= 0 {
+        let line = format!("{{\"mark\":{}}}\n", text);
+        unsafe {
+            libc::write(fd, line.as_ptr() as *const libc::c_void, line.len());
+        }
+    }
+}
+
 pub struct ChildResult {
     pub lines: Vec<String>,
     pub exit: String,
@@ -60,6 +73,18 @@ pub fn fork_run<F: FnOnce(&mut dyn FnMut(&str))>(timeout_ms: i32, f: F) -> Child
         assert!(pid >= 0, "fork failed");
         if pid == 0 {
             libc::close(fds[0]);
+            // the child must never read the protocol stream: stdin := /dev/null
+            let devnull = libc::open(b"/dev/null\0".as_ptr() as *const libc::c_char, libc::O_RDONLY);
+            if devnull >= 0 {
+                libc::dup2(devnull, 0);
+            }
+            if let Ok(lim) = std::env::var("SVH_CHILD_AS_MB") {
+                if let Ok(mb) = lim.parse::<u64>() {
+                    let r = libc::rlimit { rlim_cur: mb << 20, rlim_max: mb << 20 };
+                    libc::setrlimit(libc::RLIMIT_AS, &r);
+                }
+            }
+            CHILD_PIPE_FD.store(fds[1], std::sync::atomic::Ordering::Relaxed);
             let mut w = std::fs::File::from_raw_fd(fds[1]);
             {
                 let mut emit = |s: &str| {
